@@ -100,6 +100,10 @@ pub fn repo_commit() -> (String, bool) {
 }
 
 static NONCE_CTR: AtomicU64 = AtomicU64::new(0);
+/// hangs seen so far in this process (later hangs get a shorter deadline)
+pub static HANGS: AtomicU64 = AtomicU64::new(0);
+/// cap on the output of one script (reference-terminating programs print far less)
+pub const OUT_CAP: usize = 1 << 20;
 
 fn nonce() -> String {
     let t = std::time::SystemTime::now()
@@ -129,7 +133,7 @@ impl Pool {
             bin: bin.to_path_buf(),
             workers: n.min(16),
             env: default_env(),
-            deadline: Duration::from_secs(10),
+            deadline: Duration::from_secs(4),
         }
     }
 
@@ -222,7 +226,13 @@ impl Pool {
                         while !done.load(Ordering::SeqCst) {
                             std::thread::sleep(Duration::from_millis(50));
                             let last = progress.load(Ordering::SeqCst);
-                            if now_ms().saturating_sub(last) > deadline.as_millis() as u64 {
+                            let dl = if HANGS.load(Ordering::SeqCst) >= 4 {
+                                (deadline.as_millis() as u64) / 8
+                            } else {
+                                deadline.as_millis() as u64
+                            };
+                            if now_ms().saturating_sub(last) > dl {
+                                HANGS.fetch_add(1, Ordering::SeqCst);
                                 killed.store(true, Ordering::SeqCst);
                                 unsafe {
                                     libc::kill(pid as i32, libc::SIGKILL);
@@ -305,6 +315,22 @@ impl Pool {
                             continue 'req;
                         }
                         captured.extend_from_slice(&line);
+                        if captured.len() > OUT_CAP {
+                            // runaway output: programs sent here terminate in the reference
+                            // model with bounded output, so this is a non-terminating run
+                            killed.store(true, Ordering::SeqCst);
+                            unsafe {
+                                libc::kill(pid as i32, libc::SIGKILL);
+                            }
+                            captured.truncate(4096);
+                            out.push(Outcome {
+                                class: Class::Crash(0),
+                                stdout: captured,
+                                msg: String::new(),
+                            });
+                            HANGS.fetch_add(1, Ordering::SeqCst);
+                            break 'req;
+                        }
                     }
                 }
                 done.store(true, Ordering::SeqCst);
@@ -325,6 +351,7 @@ impl Pool {
                     // classify the in-flight request
                     if killed.load(Ordering::SeqCst) {
                         last.class = Class::Hang;
+                        last.stdout.truncate(4096);
                     } else {
                         use std::os::unix::process::ExitStatusExt;
                         let code = match status {
@@ -456,19 +483,33 @@ pub fn run_cli(r: CliRun) -> Result<CliOutcome, MachineryError> {
     }
     let mut so = child.stdout.take();
     let mut se = child.stderr.take();
-    let t_out = std::thread::spawn(move || {
+    let child_pid = child.id();
+    let read_capped = move |s: &mut dyn Read| -> Vec<u8> {
         let mut b = vec![];
-        if let Some(s) = so.as_mut() {
-            let _ = s.read_to_end(&mut b);
+        let mut buf = [0u8; 65536];
+        loop {
+            match s.read(&mut buf) {
+                Ok(0) | Err(_) => break,
+                Ok(n) => {
+                    if b.len() < 4 * OUT_CAP {
+                        b.extend_from_slice(&buf[..n]);
+                    } else {
+                        unsafe {
+                            libc::kill(child_pid as i32, libc::SIGKILL);
+                        }
+                    }
+                }
+            }
         }
         b
+    };
+    let t_out = std::thread::spawn(move || match so.as_mut() {
+        Some(s) => read_capped(s),
+        None => vec![],
     });
-    let t_err = std::thread::spawn(move || {
-        let mut b = vec![];
-        if let Some(s) = se.as_mut() {
-            let _ = s.read_to_end(&mut b);
-        }
-        b
+    let t_err = std::thread::spawn(move || match se.as_mut() {
+        Some(s) => read_capped(s),
+        None => vec![],
     });
     let t0 = Instant::now();
     let mut timed_out = false;
@@ -537,7 +578,7 @@ pub fn run_cli_simple(bin: &Path, src: &[u8]) -> Result<CliOutcome, MachineryErr
         env: &env,
         stdin: StdinMode::Null,
         to_files: None,
-        timeout: Duration::from_secs(20),
+        timeout: Duration::from_secs(6),
     });
     let _ = std::fs::remove_dir_all(&d);
     r
